@@ -25,6 +25,10 @@
    single = false), a read of n > 0 bytes is "Read::read until n bytes, a call that returns 0
    bytes, or an error"; a read of 0 bytes is one call.  Apart from that the interpreter is
    Run.hist_op / hist_ops / hist_run. *)
+From MLA Require Import Limit.
+From MLAGen Require Src.
+(* executable entry points: the production value of BINCODE_MAX_DESERIALIZE (the same in both flavours), file-local *)
+#[local] Instance RUN_LIMIT : Limit := MLAGen.Src.BINCODE_MAX_DESERIALIZE_prod.
 From MLA Require Import Base Stream EncLayer CompLayer RawLayer Blocks Reader Inst InstGcm Run RunC11.
 From MLA.Concrete Require Aes.
 From MLAGen Require Src.
